@@ -95,7 +95,7 @@ Fixpoint plain_exec (c : code) (env : list pyval) : outcome * list ev :=
   | Ret e => (OVal (eval env e), [])
   | Raise ty => (OExn (EUser ty), [])
   | Interrupt => (OInt, [])
-  | In cf body args kwargs k =>
+  | Inp cf body args kwargs k =>
       let a := map (eval env) args in let kw := eval_kw env kwargs in
       pbind_val (plain_call (i_alias cf) a kw (plain_exec body (body_env a kw))) (fun v => plain_exec k (env ++ [v]))
   | Out cf body args kwargs k =>
@@ -221,7 +221,7 @@ Section Rec.
     | Ret e => (OVal (eval env e), s, [])
     | Raise ty => (OExn (EUser ty), s, [])
     | Interrupt => (OInt, s, [])
-    | In cf body args kwargs k =>
+    | Inp cf body args kwargs k =>
         let a := map (eval env) args in let kw := eval_kw env kwargs in
         bind_val (rec_in_call cf a kw (rec_exec body (body_env a kw)) s) (fun v s' => rec_exec k (env ++ [v]) s')
     | Out cf body args kwargs k =>
@@ -336,7 +336,7 @@ Section Play.
     | Ret e => (OVal (eval env e), s, [])
     | Raise ty => (OExn (EUser ty), s, [])
     | Interrupt => (OInt, s, [])
-    | In cf body args kwargs k =>
+    | Inp cf body args kwargs k =>
         let a := map (eval env) args in let kw := eval_kw env kwargs in
         bind_val (play_in_call cf a kw (play_exec body (body_env a kw)) s) (fun v s' => play_exec k (env ++ [v]) s')
     | Out cf body args kwargs k =>
